@@ -74,10 +74,10 @@ Fixpoint nums_of (l : list arg) : list N :=
   match l with AN n :: t => n :: nums_of t | _ => [] end.
 (* generic in the iterator: nx is next() on the cursor *)
 Section Walk.
-  Context {T : Type}.
-  Variable nx : N -> option T * N.
+  Context {T St : Type}.         (* St: the iterator's state (a cursor, or count + offset) *)
+  Variable nx : St -> option T * St.
   Variable po : T -> out.
-  Fixpoint g_nth (fuel : nat) (n : N) (off : N) : option T * N :=
+  Fixpoint g_nth (fuel : nat) (n : N) (off : St) : option T * St :=
     match fuel with
     | O => (None, off)
     | S f => match nx off with
@@ -85,7 +85,7 @@ Section Walk.
              | (Some a, o') => if n =? 0 then (Some a, o') else g_nth f (N.pred n) o'
              end
     end.
-  Fixpoint g_take (fuel : nat) (a : N) (off : N) : list T * N :=
+  Fixpoint g_take (fuel : nat) (a : N) (off : St) : list T * St :=
     match fuel with
     | O => ([], off)
     | S f => if a =? 0 then ([], off) else
@@ -94,12 +94,12 @@ Section Walk.
              | (Some x, o') => let (l, o2) := g_take f (N.pred a) o' in (x :: l, o2)
              end
     end.
-  Fixpoint g_drain (fuel : nat) (off : N) : list T :=
+  Fixpoint g_drain (fuel : nat) (off : St) : list T :=
     match fuel with
     | O => []
     | S f => match nx off with (Some x, o') => x :: g_drain f o' | (None, _) => [] end
     end.
-  Fixpoint step_items (fuel cap : nat) (a : N) (off : N) : list T :=
+  Fixpoint step_items (fuel cap : nat) (a : N) (off : St) : list T :=
     match cap with
     | O => []
     | S c => match g_nth fuel a off with
@@ -107,7 +107,7 @@ Section Walk.
              | (None, _) => []
              end
     end.
-  Fixpoint walk (fuel : nat) (acts : list N) (off : N) : list out :=
+  Fixpoint walk (fuel : nat) (acts : list N) (off : St) : list out :=
     match acts with
     | c :: a :: rest =>
       if c =? 0 then let (x, o') := nx off in oopt po x :: walk fuel rest o'
@@ -240,6 +240,14 @@ Definition run_viter_q (kind : string) (s : espec) (c : class) (d : buf) (st : v
     else if String.eqb kind "verneed" then o_verneeds s c d st
     else if String.eqb kind "verdaux" then o_viter_aux (verdaux_next s c d) o_verdaux d st
     else if String.eqb kind "vernaux" then o_viter_aux (vernaux_next s c d) o_vernaux d st
+    else OBad
+  | AW "walk" :: acts =>
+    let lift {I} (nx : viter -> res (option I * viter)) (st : viter) : option I * viter :=
+      match nx st with Ok (x, st') => (x, st') | _ => (None, st) end in
+    if String.eqb kind "verdef" then OL (walk (lift (verdef_next s c d)) (fun p => o_verdef (fst p)) (link_fuel d) (nums_of acts) st)
+    else if String.eqb kind "verneed" then OL (walk (lift (verneed_next s c d)) (fun p => o_verneed (fst p)) (link_fuel d) (nums_of acts) st)
+    else if String.eqb kind "verdaux" then OL (walk (lift (verdaux_next s c d)) (fun p => o_verdaux (fst p)) (link_fuel d) (nums_of acts) st)
+    else if String.eqb kind "vernaux" then OL (walk (lift (vernaux_next s c d)) (fun p => o_vernaux (fst p)) (link_fuel d) (nums_of acts) st)
     else OBad
   | [AW w; AB strs] =>
     if String.eqb w "names" && String.eqb kind "verdaux" then
